@@ -2,6 +2,7 @@ package rasterizer
 
 import (
 	"image"
+	"image/color"
 
 	"github.com/srwiley/scanx"
 	"github.com/tdewolff/canvas"
@@ -151,4 +152,42 @@ func VH_C14_gradient_pixels() {
 		}
 	}
 	vAssert("C14.gradient.pixels_get_the_colour_at_their_canvas_point", good)
+}
+
+// C14-H9 ("colour space post-processing"): with a non-linear colour space the rasterizer converts
+// paints to linear light, composites, and converts the image back on Close; an opaque paint
+// therefore comes out as the colour that was asked for (within 2/255 for the two 8-bit
+// conversions), for fills and for strokes alike, in the linear, sRGB and gamma 2.2 colour spaces.
+// Concrete square / thick line, colour from a set with mid-range channels, observed on the image.
+func VH_C14_colorspace() {
+	var cs canvas.ColorSpace
+	switch vChoose(0, 2) {
+	case 0:
+		cs = canvas.LinearColorSpace{}
+	case 1:
+		cs = canvas.SRGBColorSpace{}
+	default:
+		cs = canvas.GammaColorSpace{Gamma: 2.2}
+	}
+	cols := []color.RGBA{{128, 64, 200, 255}, {30, 180, 90, 255}, {255, 0, 0, 255}}
+	c := cols[vChoose(0, len(cols)-1)]
+	stroke := vChoose(0, 1) == 1
+	r := New(10, 10, canvas.DPMM(1), cs)
+	style := canvas.DefaultStyle
+	p := canvas.Rectangle(8, 8).Translate(1, 1)
+	if stroke {
+		style.Fill = canvas.Paint{}
+		style.Stroke = canvas.Paint{Color: c}
+		style.StrokeWidth = 6
+		p = &canvas.Path{}
+		p.MoveTo(1, 5)
+		p.LineTo(9, 5)
+	} else {
+		style.Fill = canvas.Paint{Color: c}
+	}
+	r.RenderPath(p, style, canvas.Identity)
+	r.Close()
+	got := r.Image.(*image.RGBA).RGBAAt(5, 5)
+	near := func(a, b uint8) bool { return int(a)-int(b) <= 2 && int(b)-int(a) <= 2 }
+	vAssert("C14.colorspace.opaque_paint_comes_out_as_asked", near(got.R, c.R) && near(got.G, c.G) && near(got.B, c.B) && got.A == 255)
 }
